@@ -321,7 +321,7 @@ func TestC07(t *testing.T) {
 		rec.Require("conflict:"+k, 0.02)
 	}
 	rapid.Check(t, func(rt *rapid.T) {
-		ms := gen.Modules(rt, gen.ModOpts{MaxConflicts: 2, Layout: true, CaseNames: true, Twice: true, EmptySelfExt: true, GlueNames: true})
+		ms := gen.Modules(rt, gen.ModOpts{MaxConflicts: 2, Layout: true, CaseNames: true, Twice: true, EmptySelfExt: true, GlueNames: true, BigExt: true})
 		in := modInputOf(ms)
 		cls, _, nt := modClasses(ms)
 		var sample any
@@ -426,7 +426,7 @@ func TestC12(t *testing.T) {
 	rec.Require("set:two-or-more-extending-files", 0.5)
 	rec.Require("set:two-or-more-conflicts", 0.15)
 	rapid.Check(t, func(rt *rapid.T) {
-		ms := gen.Modules(rt, gen.ModOpts{MaxConflicts: 3, MinExtFiles: 2, MaxFiles: 5, MultiDup: true, CaseNames: true, Layout: true})
+		ms := gen.Modules(rt, gen.ModOpts{MaxConflicts: 3, MinExtFiles: 2, MaxFiles: 5, MultiDup: true, CaseNames: true, Layout: true, BigExt: true})
 		in := modInputOf(ms)
 		idx := make([]int, len(in.Files))
 		for i := range idx {
